@@ -1,5 +1,5 @@
 """C05 -- scheduler core (work in progress: metadata filled in below)."""
-from props.common import other_tasks, contract_tasks, lemma_tasks, TRUSTED_CORE, SCHED_ASSUMPTIONS
+from props.common import other_tasks, contract_tasks, lemma_tasks, TRUSTED_CORE, SCHED_ASSUMPTIONS, CLOSURE_ASSUMPTION
 
 PROPERTY = "C05"
 
@@ -11,11 +11,11 @@ def tasks(tier):
             # ('incomparable delays' is one of the internal errors C05 names: the order on delays and its use in update_min)
             + contract_tasks("contracts.tiered_time", "C08")
             + contract_tasks("contracts.scenario_min", "C05")
-            + other_tasks("contracts.closure", "C05", "bounded"))
+            + contract_tasks("contracts.closure_ded", "C05") + lemma_tasks("contracts.closure_ded", "C05") + other_tasks("contracts.closure", "C05", "bounded"))
 
 
 TRUSTED_BASE = TRUSTED_CORE
-ASSUMPTIONS = SCHED_ASSUMPTIONS
+ASSUMPTIONS = SCHED_ASSUMPTIONS + [CLOSURE_ASSUMPTION]
 NOT_COVERED = ['termination / deadlock freedom as such (liveness over whole histories) is NOT decided: no function contract expresses it. Decided instead: every internal-error site is unreachable, and the one wait whose condition could be unsatisfiable (own progress beyond until) is excluded by an obligation at the await (this found F16)', 'scenarios in the known finding F6 (K_mixed delays on two paths) die in the closure before any step: recorded, replayed on every run']
 LEVEL_TEXT = "Safety half: every internal-error site on the run path (cannot progress backwards, already progressed, length / None errors, empty heap, incomparable delays in the scheduler functions) is an obligation 'unreachable' under the invariant; the awaited progress in next_step_settled is never beyond until; scheduler.run starts every simulator exactly once. Deadlock freedom / termination (liveness) is NOT decided. The order and arithmetic of tiered times / delays (C08 contracts) and update_min are part of this check: 'incomparable delays' is one of the internal errors the statement names."
 DESIGN_REF = "DESIGN.md section 8 (C05)"
